@@ -963,12 +963,30 @@ def Mon_wrap(ty, a, op, b):
     return v
 
 
+CASTS_OK_WHILE_OPEN = (
+    [("i32", d) for d in ("i8", "u8", "i16", "u16", "i32", "u32", "i64", "f32", "f64")]
+    + [("u32", d) for d in ("i8", "u8", "i16", "u16", "i32", "u32", "i64", "u64", "f64")]
+    + [(s_, d) for s_ in ("i64", "u64") for d in ("i32", "u32", "i64", "u64", "f32", "f64")]
+    + [("f32", "f64"), ("f64", "f32")])
+
+
 def matrix_select(tyname, avoid):
     """(binops, unops, cast targets, conditions) of the matrix for one type under the avoid switches"""
     isf = tyname[0] == "f"
+    if NARROW in avoid and tyname in ("i8", "u8", "i16", "u16", "u32"):
+        return None
     ops = ["+", "-", "*", "/"] if isf else ["+", "-", "*", "/", "%", "&", "|", "^", "<<", ">>"]
+    if "wasm-i64-bitwise-shift-unsupported" in avoid and tyname in ("i64", "u64"):
+        ops = ["+", "-", "*", "/", "%"]
     unops = ["-"] if isf else ["-", "~"]
+    if "wasm-invert-and-unsigned-negate-unsupported" in avoid:
+        unops = [] if tyname[0] == "u" else ["-"]
     cast_to = list(ALL_TYPES)
+    if any(k in avoid for k in CASTS):
+        cast_to = [d for d in cast_to if (tyname, d) in CASTS_OK_WHILE_OPEN]
+    if NARROW in avoid:
+        # a narrow result is only looked at modulo 2^bits at the boundary and in memory: fine
+        pass
     conds = ["==", "!=", "<", ">", "<=", ">="]
     return ops, unops, cast_to, conds
 
@@ -980,7 +998,7 @@ def matrix_select(tyname, avoid):
 # arithmetic only, so that no open translator finding is touched): ``acc`` records the path taken
 # (acc = acc * 3 + k at node k), conditions look at bits of x and acc, loops are counted.
 #   ("a",)                       path node
-#   ("if", j, then, else)        condition j
+#   ("if", j, then, else)        condition j (j < 4: bit j of x flipped by bit 1 of acc; j >= 4: bit j-4 of x)
 #   ("while", n, body)  ("do", n, body)
 #   ("break", j, level)  ("continue", j, level)  ("return", j)        conditional exits
 #   ("same", j)                  conditional jump with identical targets
@@ -1046,7 +1064,8 @@ def random_skeleton(r, depth=0, in_loop=0, budget=None):
         elif k < 0.97:
             out.append(("self", r.randint(1, 3)))
         elif k < 0.985 and depth < 2:
-            out.append(("twoentry", r.randrange(8), r.randint(1, 3), [("a",)], random_skeleton(r, depth + 2, in_loop, budget)))
+            out.append(("twoentry", r.randrange(8), r.randint(1, 3), [("a",)],
+                        random_skeleton(r, depth + 2, in_loop, budget)))
         else:
             out.append(("a",))
     return out
@@ -1105,7 +1124,7 @@ class Lower:
         self.emit(self.ir.Store(v, self.acc))
 
     def cond(self, j):
-        """-> (a, b) for  cjmp a == b : j < 4: bit j of x flipped by bit 1 of acc; j >= 4: bit j-4 of x"""
+        """-> (a, b) for  cjmp a == b"""
         if j >= 4:      # bit j-4 of x alone
             return self.binop(self.binop(self.x, ">>", self.const(j - 4)), "&", self.const(1)), self.const(1)
         t = self.binop(self.binop(self.x, ">>", self.const(j)), "^", self.binop(self.load(self.acc), ">>", self.const(1)))
@@ -1139,13 +1158,13 @@ class Lower:
                     if self.stmts(st[3]):
                         self.emit(ir.Jump(jb))
                 self.cur = jb
-                # jb always has the fall-through predecessor unless both arms left
                 if not jb.references:
                     self.f.remove_block(jb)
                     return False
             elif kind in ("while", "do"):
                 i = self.slot("i", 0)
-                head, body_b, latch, exit_b = self.block("head"), self.block("body"), self.block("latch"), self.block("exit")
+                head, body_b, latch, exit_b = (self.block("head"), self.block("body"), self.block("latch"),
+                                               self.block("exit"))
                 self.emit(ir.Jump(head if kind == "while" else body_b))
                 self.cur = head
                 self.emit(ir.CJump(self.load(i), "<", self.const(st[1]), body_b, exit_b))
@@ -1156,17 +1175,9 @@ class Lower:
                 if alive:
                     self.emit(ir.Jump(latch))
                 self.cur = latch
-                if latch.references:
-                    self.emit(ir.Store(self.binop(self.load(i), "+", self.const(1)), i))
-                    self.emit(ir.Jump(head))
-                else:
-                    self.f.remove_block(latch)
-                if not head.references:
-                    self.f.remove_block(head)
+                self.emit(ir.Store(self.binop(self.load(i), "+", self.const(1)), i))
+                self.emit(ir.Jump(head))
                 self.cur = exit_b
-                if not exit_b.references:
-                    self.f.remove_block(exit_b)
-                    return False
             elif kind in ("break", "continue"):
                 if not self.loops:
                     continue
@@ -1215,15 +1226,12 @@ class Lower:
                     self.emit(ir.Store(v, i))
                     self.emit(ir.CJump(v, "<", self.const(st[2]), la, nb))
                 self.cur = nb
-                if not nb.references:
-                    self.f.remove_block(nb)
-                    return False
         return True
 
     def finish(self, body):
-        if self.stmts(body):
-            self.node()
-            self.ret()
+        self.stmts(body)
+        self.node()
+        self.ret()
         from vlib.irgen import prune_unreachable
         prune_unreachable(self.f)
 
@@ -1443,6 +1451,88 @@ def _b_phi():
     return m, {"f": [[1], [4], [0]]}
 
 
+def _b_fptr_null():
+    from ppci import ir
+    m = ir.Module("p")
+    h, (a,), hb = _fn(m, "h", ir.i32, [ir.i32])
+    hb.add_instruction(ir.Return(a))
+    f, (x,), b = _fn(m, "f", ir.i32, [ir.i32])
+    al = ir.Alloc("al", 4, 4)
+    b.add_instruction(al)
+    ad = ir.AddressOf(al, "ad")
+    b.add_instruction(ad)
+    b.add_instruction(ir.Store(h, ad))
+    p = ir.Load(ad, "p", ir.ptr)
+    b.add_instruction(p)
+    z = ir.Const(0, "z", ir.ptr)
+    b.add_instruction(z)
+    yes, no = ir.Block("yes"), ir.Block("no")
+    f.add_block(yes)
+    f.add_block(no)
+    b.add_instruction(ir.CJump(p, "==", z, yes, no))
+    one = ir.Const(1, "one", ir.i32)
+    yes.add_instruction(one)
+    yes.add_instruction(ir.Return(one))
+    v = ir.FunctionCall(p, [x], "v", ir.i32)
+    no.add_instruction(v)
+    no.add_instruction(ir.Return(v))
+    return m, {"f": [[5]]}
+
+
+def _b_reloc():
+    from ppci import ir
+    m = ir.Module("p")
+    t = ir.Variable("t", ir.Binding.GLOBAL, 4, 4)
+    m.add_variable(t)
+    g = ir.Variable("g", ir.Binding.GLOBAL, 8, 4, value=(b"\x01\x00\x00\x00", (ir.ptr, "t")))
+    m.add_variable(g)
+    f, (x,), b = _fn(m, "f", ir.i32, [ir.i32])
+    four = ir.Const(4, "four", ir.ptr)
+    b.add_instruction(four)
+    q = ir.Binop(g, "+", four, "q", ir.ptr)
+    b.add_instruction(q)
+    p = ir.Load(q, "p", ir.ptr)
+    b.add_instruction(p)
+    b.add_instruction(ir.Store(x, p))
+    v = ir.Load(t, "v", ir.i32)
+    b.add_instruction(v)
+    b.add_instruction(ir.Return(v))
+    return m, {"f": [[5]]}
+
+
+def _b_blobarg():
+    from ppci import ir
+    m = ir.Module("p")
+    bt = ir.BlobDataTyp(8, 4)
+    h = ir.Function("h", ir.Binding.GLOBAL, ir.i32)
+    m.add_function(h)
+    bp = ir.Parameter("bp", bt)
+    h.add_parameter(bp)
+    hb = ir.Block("hb")
+    h.add_block(hb)
+    h.entry = hb
+    ad = ir.AddressOf(bp, "ad")
+    hb.add_instruction(ad)
+    v = ir.Load(ad, "v", ir.i32)
+    hb.add_instruction(v)
+    hb.add_instruction(ir.Return(v))
+    f, (x,), b = _fn(m, "f", ir.i32, [ir.i32])
+    al = ir.Alloc("al", 8, 4)
+    b.add_instruction(al)
+    pa = ir.AddressOf(al, "pa")
+    b.add_instruction(pa)
+    four = ir.Const(4, "four", ir.ptr)
+    b.add_instruction(four)
+    q = ir.Binop(pa, "+", four, "q", ir.ptr)
+    b.add_instruction(q)
+    b.add_instruction(ir.Store(x, pa))
+    b.add_instruction(ir.Store(x, q))
+    r = ir.FunctionCall(h, [al], "r", ir.i32)
+    b.add_instruction(r)
+    b.add_instruction(ir.Return(r))
+    return m, {"f": [[5]]}
+
+
 def _b_skel(name):
     def build():
         return build_skeleton(name, CATALOGUE[name]), {"f": [[x] for x in SKEL_ARGS]}
@@ -1461,6 +1551,9 @@ PROBES = {
     "wasm-blob-copy-unsupported": _probe(_b_blob),
     "wasm-integer-immediate-out-of-signed-range": _probe(_b_bigconst),
     "wasm-phi-copies-before-conditional-jump": _probe(_b_phi),
+    "wasm-function-pointer-table-index-zero": _probe(_b_fptr_null),
+    "wasm-global-pointer-initializer-unsupported": _probe(_b_reloc),
+    "wasm-blob-parameter-unsupported": _probe(_b_blobarg),
     "structure-same-target-cjump-asserts": _probe(_b_skel("same-target-cjump-in-loop")),
     "structure-nested-loop-miscompiled": _probe(_b_skel("nested-loops")),
     "structure-loop-with-two-exit-targets-rejected": _probe(_b_skel("nested-break-outer")),
